@@ -67,7 +67,7 @@ EnvStep(e) ==
     [] e.op = "get"  -> Get(e.a1, e.a2, e.a3, e.ri, Armed(<<"F", e.a1>>)) /\ armed' = armed \ {<<"F", e.a1>>}
     [] e.op = "cut"  -> Cut(e.a1) /\ armed' = armed
     [] e.op = "del"  -> Del(e.a1) /\ armed' = armed
-    [] e.op = "gateA" -> Same /\ armed' = armed \cup {<<"A", e.a1, e.a2>>}
+    [] e.op = "gateA" -> Same /\ armed' = armed \cup {<<"A", e.a1, e.a2>>}   \* (not applied while that gate is holding)
     [] e.op = "gateF" -> Same /\ armed' = armed \cup {<<"F", e.a1>>}
     [] e.op = "open" -> (IF ENABLED GateOpen THEN GateOpen ELSE Same) /\ armed' = {}
     [] OTHER -> FALSE
